@@ -28,8 +28,11 @@ struct Fix {
     ff1: WmcParams<FiniteField<P1>>,
     ff2: WmcParams<FiniteField<P2>>,
     eu: WmcParams<ExpectedUtility>,
-    hmap: WmcParams<FiniteField<P2>>,
-    hmap1: WmcParams<FiniteField<P1>>,
+}
+
+/// run `f` on a newly spawned thread and return its result (pristine thread-local state)
+fn on_fresh_thread<T: Send, F: FnOnce() -> T + Send>(f: F) -> T {
+    std::thread::scope(|s| s.spawn(f).join().expect("reference thread"))
 }
 
 fn fixtures(n: usize) -> Fix {
@@ -41,8 +44,6 @@ fn fixtures(n: usize) -> Fix {
         ff1: WmcParams::new((0..n).map(|v| (VarLabel::new(v as u64), (FiniteField::new(3 + v as u128), FiniteField::new(P1 - 2 - v as u128)))).collect::<HashMap<_, _>>()),
         ff2: WmcParams::new((0..n).map(|v| (VarLabel::new(v as u64), (FiniteField::new(5 + v as u128), FiniteField::new(P2 - 4 - v as u128)))).collect::<HashMap<_, _>>()),
         eu: WmcParams::new((0..n).map(|v| (VarLabel::new(v as u64), (ExpectedUtility(0.5, 0.0), ExpectedUtility(0.5, v as f64)))).collect::<HashMap<_, _>>()),
-        hmap: create_semantic_hash_map::<P2>(n),
-        hmap1: create_semantic_hash_map::<P1>(n),
     }
 }
 
@@ -137,8 +138,8 @@ fn bdd_query<'a>(b: &'a AllBuilder<'a>, p: BddPtr<'a>, q: &Q, fx: &Fix) -> Resul
             format!("{:?}/{:?}", r.0.to_bits(), r.1.to_bits())
         }
         Q::Fixed(5) => format!("{}", p.count_nodes()),
-        Q::Fixed(6) => format!("{}", p.semantic_hash(&fx.hmap1).value()),
-        Q::Fixed(7) => format!("{}", p.cached_semantic_hash(b.order(), &fx.hmap).value()),
+        Q::Fixed(6) => format!("{}", p.semantic_hash(&create_semantic_hash_map::<P1>(fx.n)).value()),
+        Q::Fixed(7) => format!("{}", p.cached_semantic_hash(b.order(), &create_semantic_hash_map::<P2>(fx.n)).value()),
         Q::Fixed(8) => {
             let (v, m) = p.marginal_map(&vars, n, &fx.real);
             format!("{:?} {:?}", v.to_bits(), m)
@@ -198,12 +199,18 @@ fn explore_bdd(f: TT, g: TT, n: usize, order: &[usize], depth: usize, kind: u8, 
     };
     let mut reference: Vec<Vec<Result<String, String>>> = Vec::new();
     for q in 0..nq {
-        let mut row = Vec::new();
-        for m in 0..npool {
-            let b = small_builder(order, 2);
-            let pool = bdd_pool(&b, f, g, n, kind);
-            row.push(bdd_query(&b, pool[m], &qs[q].1, &fx));
-        }
+        // (each reference row is computed on a thread of its own: whatever earlier queries left in
+        // thread-local state of the library cannot reach it)
+        let row = on_fresh_thread(|| {
+            let fx = fixtures(n);
+            let mut row = Vec::new();
+            for m in 0..npool {
+                let b = small_builder(order, 2);
+                let pool = bdd_pool(&b, f, g, n, kind);
+                row.push(bdd_query(&b, pool[m], &qs[q].1, &fx));
+            }
+            row
+        });
         reference.push(row);
     }
     let case = |hist: &[(usize, usize)]| -> Value {
@@ -300,8 +307,8 @@ fn sdd_query<'a>(b: &'a CompressionSddBuilder<'a>, p: SddPtr<'a>, q: usize, fx: 
         1 => format!("{}", p.unsmoothed_wmc(&fx.ff2).value()),
         2 => (0..(1usize << n)).map(|a| if p.evaluate(&tt::assignment_vec(a, n)) { '1' } else { '0' }).collect::<String>(),
         3 => format!("{}", p.count_nodes()),
-        4 => format!("{}", p.semantic_hash(&fx.hmap1).value()),
-        5 => format!("{}", p.cached_semantic_hash(b.vtree_manager(), &fx.hmap).value()),
+        4 => format!("{}", p.semantic_hash(&create_semantic_hash_map::<P1>(fx.n)).value()),
+        5 => format!("{}", p.cached_semantic_hash(b.vtree_manager(), &create_semantic_hash_map::<P2>(fx.n)).value()),
         6 => sdd_canon(b.condition(p, VarLabel::new(1 % n as u64), false)),
         7 => sdd_canon(b.exists(p, VarLabel::new(0))),
         8 => format!("{:?}", p.unsmoothed_wmc(&fx.real2).0.to_bits()),
@@ -318,12 +325,16 @@ fn explore_sdd(f: TT, g: TT, n: usize, vt: &VT, depth: usize, rep: &mut Report) 
     let npool = 5;
     let mut reference: Vec<Vec<Result<String, String>>> = Vec::new();
     for q in 0..nq {
-        let mut row = Vec::new();
-        for m in 0..npool {
-            let b = mk_sdd(vt);
-            let pool = sdd_pool(&b, f, g, n);
-            row.push(sdd_query(&b, pool[m], q, &fx));
-        }
+        let row = on_fresh_thread(|| {
+            let fx = fixtures(n);
+            let mut row = Vec::new();
+            for m in 0..npool {
+                let b = mk_sdd(vt);
+                let pool = sdd_pool(&b, f, g, n);
+                row.push(sdd_query(&b, pool[m], q, &fx));
+            }
+            row
+        });
         reference.push(row);
     }
     let mut seqs: Vec<Vec<(usize, usize)>> = vec![vec![]];
@@ -391,8 +402,8 @@ fn td_query<'a>(b: &'a StandardDecisionNNFBuilder<'a>, p: BddPtr<'a>, q: &Q, fx:
         Q::Fixed(1) => format!("{}", p.unsmoothed_wmc(&fx.ff2).value()),
         Q::Fixed(2) => (0..(1usize << n)).map(|a| if p.evaluate(&tt::assignment_vec(a, n)) { '1' } else { '0' }).collect::<String>(),
         Q::Fixed(3) => format!("{}", p.count_nodes()),
-        Q::Fixed(4) => format!("{}", p.semantic_hash(&fx.hmap1).value()),
-        Q::Fixed(_) => format!("{}", p.cached_semantic_hash(b.order(), &fx.hmap).value()),
+        Q::Fixed(4) => format!("{}", p.semantic_hash(&create_semantic_hash_map::<P1>(fx.n)).value()),
+        Q::Fixed(_) => format!("{}", p.cached_semantic_hash(b.order(), &create_semantic_hash_map::<P2>(fx.n)).value()),
         Q::Cond(x, val) => digest_bdd(b.condition(p, VarLabel::new(*x as u64), *val), n),
         Q::Wmc2 => format!("{:?}", p.unsmoothed_wmc(&fx.real2).0.to_bits()),
         Q::BuilderStats => {
@@ -413,12 +424,16 @@ fn explore_td(f: TT, g: TT, n: usize, order: &[usize], depth: usize, kind: u8, r
     let npool = if kind == 1 { 2 } else { 4 };
     let mut reference: Vec<Vec<Result<String, String>>> = Vec::new();
     for q in 0..nq {
-        let mut row = Vec::new();
-        for m in 0..npool {
-            let b = mk_td(order);
-            let pool = td_pool(&b, f, g, n, kind);
-            row.push(td_query(&b, pool[m], &qs[q].1, &fx));
-        }
+        let row = on_fresh_thread(|| {
+            let fx = fixtures(n);
+            let mut row = Vec::new();
+            for m in 0..npool {
+                let b = mk_td(order);
+                let pool = td_pool(&b, f, g, n, kind);
+                row.push(td_query(&b, pool[m], &qs[q].1, &fx));
+            }
+            row
+        });
         reference.push(row);
     }
     let mut seqs: Vec<Vec<(usize, usize)>> = vec![vec![]];
@@ -468,9 +483,12 @@ fn long_histories_td(f: TT, n: usize, order: &[usize], rep: &mut Report) {
     // reference answers on fresh copies
     let mut reference: Vec<Result<String, String>> = Vec::new();
     for (q, m) in acts.iter() {
-        let b = mk_td(order);
-        let pool = td_pool(&b, f, 0, n, 1);
-        reference.push(td_query(&b, pool[*m], &qs[*q].1, &fx));
+        reference.push(on_fresh_thread(|| {
+            let fx = fixtures(n);
+            let b = mk_td(order);
+            let pool = td_pool(&b, f, 0, n, 1);
+            td_query(&b, pool[*m], &qs[*q].1, &fx)
+        }));
     }
     for first in 0..acts.len() {
         let b = mk_td(order);
